@@ -115,7 +115,8 @@ class DefaultFunctionEstimator(FunctionEstimator):
     ) -> NDArray[np.float64]:
         if np.count_nonzero(weights) < _MIN_STDDEV_REALIZATIONS:
             raise OptimizationAborted(exit_code=OptimizerExitCode.TOO_FEW_REALIZATIONS)
-        functions = np.nan_to_num(functions)
+        # Realizations without a weight (failed or inactive) do not take part:
+        functions = np.where(weights != 0, np.nan_to_num(functions), 0.0)
         *_, stddev = self._mean_stddev(functions, weights)
         return stddev
 
@@ -127,7 +128,8 @@ class DefaultFunctionEstimator(FunctionEstimator):
     ) -> NDArray[np.float64]:
         if np.count_nonzero(weights) < _MIN_STDDEV_REALIZATIONS:
             raise OptimizationAborted(exit_code=OptimizerExitCode.TOO_FEW_REALIZATIONS)
-        functions = np.nan_to_num(functions)
+        # Realizations without a weight (failed or inactive) do not take part:
+        functions = np.where(weights != 0, np.nan_to_num(functions), 0.0)
         norm, mean, stddev = self._mean_stddev(functions, weights)
         mean_gradient = np.dot(gradient, weights)
         # The standard deviation vanishes if the realizations are equal up to
